@@ -337,6 +337,58 @@ func C10(c *run.Check) {
 	if completed < maxDepth {
 		c.Exhaustive = false
 	}
+	// wide elements: 0..9 namespace declarations x 0..9 attributes x 4 kinds of
+	// content, below a parent declaring 0 or 3 prefixes and between siblings (the
+	// BFS alphabet has only two attribute names and three prefixes)
+	if c.Violations() == 0 {
+		type wj struct{ k, m, kind, par int }
+		var jobs []wj
+		for k := 0; k <= 9; k++ {
+			for m := 0; m <= 9; m++ {
+				for kind := 0; kind < 4; kind++ {
+					for par := 0; par < 2; par++ {
+						jobs = append(jobs, wj{k, m, kind, par})
+					}
+				}
+			}
+		}
+		run.ParallelW(len(jobs), func(_, i int) {
+			if c.Violations() > 0 {
+				return
+			}
+			j := jobs[i]
+			end := impl.Event{K: impl.EvEnd}
+			tr := []impl.Event{{K: impl.EvStart, Local: "r"}}
+			if j.par == 1 {
+				for q := 0; q < 3; q++ {
+					tr = append(tr, impl.Event{K: impl.EvNS, Local: fmt.Sprint("i", q), Value: fmt.Sprint("urn:i", q)})
+				}
+			}
+			tr = append(tr, impl.Event{K: impl.EvStart, Local: "before"}, end, impl.Event{K: impl.EvStart, Local: "w"})
+			for q := 0; q < j.k; q++ {
+				tr = append(tr, impl.Event{K: impl.EvNS, Local: fmt.Sprint("n", q), Value: fmt.Sprint("urn:n", q)})
+			}
+			for q := 0; q < j.m; q++ {
+				tr = append(tr, impl.Event{K: impl.EvAttr, Local: fmt.Sprint("a", q), Value: fmt.Sprint(q)})
+			}
+			switch j.kind {
+			case 1:
+				tr = append(tr, impl.Event{K: impl.EvText, Value: "t"})
+			case 2:
+				tr = append(tr, impl.Event{K: impl.EvStart, Local: "c"}, impl.Event{K: impl.EvAttr, Local: "x", Value: "1"}, end, impl.Event{K: impl.EvComment, Value: "k"})
+			case 3:
+				tr = append(tr, impl.Event{K: impl.EvStart, Local: "c"}, impl.Event{K: impl.EvStart, Local: "d"}, end, end, impl.Event{K: impl.EvText, Value: "t"}, impl.Event{K: impl.EvStart, Local: "e"}, end)
+			}
+			tr = append(tr, end, impl.Event{K: impl.EvStart, Local: "after"}, impl.Event{K: impl.EvAttr, Local: "x", Value: "2"}, end, end)
+			c.Transitions.Add(1)
+			c.Evaluations.Add(1)
+			c.Traces.Add(1)
+			if msg := C10CheckTrace(tr); msg != "" {
+				c.Violation(c10Replay{Events: tr, Trace: evString(tr)}, evString(tr)+": "+msg)
+			}
+		})
+		c.Set("wide_element_traces", len(jobs))
+	}
 	// large flat / deep streams in a subprocess (a stack overflow kills the process)
 	if c.Violations() == 0 {
 		sizes := []int{1000, 100000, 1000000}
@@ -363,7 +415,7 @@ func C10(c *run.Check) {
 		}
 		c.Set("large_streams", fmt.Sprint(sizes, " x {flat text, sibling elements, nested(<=1e5)} under a 64 MB goroutine stack limit"))
 	}
-	c.Assume("event alphabet of 13 events; a prefix is declared at most twice and an attribute name at most once per element; namespace and attribute events only inside elements")
+	c.Assume("event alphabet of 14 events (plus the wide-element family); a prefix is declared at most twice and an attribute name at most once per element; namespace and attribute events only inside elements")
 }
 
 // C10Stream is the subprocess body for large streams.
